@@ -442,4 +442,44 @@ theorem near_handle : ∀ (fuel : Nat),
           · exact ihA _ rest id d hm
         · exact ihH st m
 
+/-! ### conservation: every registered waiter is either still registered or was closed exactly once -/
+
+theorem notifyAcks_conserve (id : Nat) : ∀ (ids acks : List Nat),
+    (notifyAcks acks ids).1.count id + (notifyAcks acks ids).2.count (Ev.ack id) = acks.count id := by
+  intro ids
+  induction ids with
+  | nil => intro acks; simp [notifyAcks]
+  | cons i is ih =>
+    intro acks
+    simp only [notifyAcks]
+    split
+    · rename_i hc
+      have hmem : i ∈ acks := by simpa using hc
+      simp only [List.count_cons]
+      have h1 := ih (acks.erase i)
+      by_cases hid : i = id
+      · subst hid
+        have : (acks.erase i).count i = acks.count i - 1 := by rw [List.count_erase_self]
+        have hpos : 0 < acks.count i := List.count_pos_iff.mpr hmem
+        simp only [beq_self_eq_true, if_true]
+        omega
+      · have hne : (Ev.ack i == Ev.ack id) = false := by
+          simp only [beq_eq_false_iff_ne, ne_eq, Ev.ack.injEq]; exact hid
+        have : (acks.erase i).count id = acks.count id := by
+          rw [List.count_erase_of_ne (Ne.symm hid)]
+        simp only [hne, Bool.false_eq_true, if_false]
+        omega
+    · exact ih acks
+
+theorem ackSeq_count (id : Nat) : ∀ (batches : List (List Nat)) (acks : List Nat),
+    (ackSeq acks batches).count (Ev.ack id) ≤ acks.count id := by
+  intro batches
+  induction batches with
+  | nil => intro acks; simp [ackSeq]
+  | cons b bs ih =>
+    intro acks
+    simp only [ackSeq, List.count_append]
+    have h1 := notifyAcks_conserve id b acks
+    have h2 := ih (notifyAcks acks b).1
+    omega
 end TdModel.C23
